@@ -247,10 +247,13 @@ class DataColumn(BaseColumn):
 
 
 class ChoiceColumn(DataColumn):
-  def rename_choices(self, renames):
+  def rename_choices(self, renames, table_row_ids):
+    # Only look at the given rows of the table: the storage also has slots for the empty record
+    # and for removed rows, which hold default values.
     row_ids = []
     values = []
-    for row_id, value in enumerate(self._data):
+    for row_id in table_row_ids:
+      value = self.raw_get(row_id)
       if value is not None and self.type_obj.is_right_type(value):
         value = self._rename_cell_choice(renames, value)
         if value is not None:
